@@ -1,9 +1,9 @@
 //! C09 — primitive codecs. Implementation side + direct oracle (u128 arithmetic).
-use super::{Ctx, Tier};
+use crate::prop::{Ctx, Tier};
 use crate::util::{digest_step, hex, rerr, str_hash, unhex, werr, DIGEST_INIT};
 use gimli::leb128;
 use gimli::write::Writer;
-use gimli::{BigEndian, EndianSlice, Endianity, Format, LittleEndian, Reader, RunTimeEndian};
+use gimli::{BigEndian, EndianSlice, Format, LittleEndian, Reader, RunTimeEndian};
 
 type Res<T> = Result<T, gimli::read::Error>;
 
